@@ -1,3 +1,3 @@
 from . import core  # noqa: F401
-from . import elementwise, shape, contract, linalg  # noqa: F401  (register templates)
+from . import elementwise, shape, contract, linalg, sweep  # noqa: F401  (register templates)
 from .core import TEMPLATES, namespaces  # noqa: F401
